@@ -104,6 +104,25 @@ CLAIMED["C07"] = dict(
     technique="contract-based deductive verification: structural contracts on the module builder, per-handler stack typing, byte-level framing proofs",
     design="DESIGN.md section 4 (C07)")
 
+
+# sentences appended after round 2 of the seeded changes (new families / dimensions)
+EXTRA_TEXT = {
+    "C01": " Float-typed operands are also taken in their int representation (zero-initialised or literal-initialised float storage holds Python ints): the static type decides between truncating and true division. The float arms are additionally discharged under the IEEE view (float operators uninterpreted). V.children.replace: every node class stores a replaced child back (the rewrite passes rely on it).",
+    "C02": " E2E.opt-vs-plain states C02 directly for curated programs beyond the scalar core (whole-array / struct / vector / matrix copies followed by writes through the copy, condition-less loops, int-represented floats, constant casts): optimised == unoptimised module on symbolic inputs. VM.step.STORE/LOAD identity (a STORE binds the object it is given, a LOAD yields the bound object, for every value type and every kind of producing instruction) is the lemma load-after-store forwarding relies on. P.compile-history (bounded in histories).",
+    "C04": " Element-wise + and -, and (vector | matrix) (* | /) scalar are additionally discharged under the IEEE view (float operators uninterpreted: each component is exactly the one operator on the corresponding components -- no reciprocal, no re-association). VECTOR_SET / MATRIX_SET copy their operand whatever kind of instruction produced it.",
+    "C05": " Also: BRANCH for all three forms the lowering emits (incl. no predicate with a false target: `for (;;)`), the linker families (a lost import ends in a KeyError at run time), CASTS.visit, C14.names, P.compile-history.",
+    "C06": " C06.pre discharges the precondition of the per-handler simulation: both operands of every scalar binary instruction have one IR type (all 3x3 scalar type pairs x 13 operators x both optimisation settings), so the signedness suffix is chosen from the type both operands have.",
+    "C07": " P.compile-history (bounded in histories): the bytes emitted for a program do not depend on what the same Compiler object compiled before.",
+    "C08": " FRONT.rewrite: `l op= r` becomes `l = (l op r)` with r kept as ONE operand, for r ranging over an opaque node and a real node of every expression class incl. a BinaryExpression of every operator. E2E.grouping: curated programs rendered with minimal parentheses run on symbolic inputs against the reference semantics.",
+    "C10": " C14.names: an exported name is unique whatever the parameter lists, non-exported overloads get distinct IR names, every defined function has its own IR function. P.compile-history: name resolution sees only the functions of the program being compiled.",
+    "C11": " FRONT.parse-actions: every statement-level grammar action keeps all its sub-trees in their roles for an opaque child and for a real node of every statement / expression class in each child position (a statement list keeps every (previous, appended) class pair).",
+    "C12": " LOWER.VariableDeclaration for every state of the function's table of locals (a name already declared in a sibling scope still gets its own NEW_VARIABLE); E2E.scalar programs that reuse a name in sibling blocks, if/else branches and a loop body followed by a block.",
+    "C14": " C14.names (see C10). P.compile-history.",
+    "C20": " C20.parse.history: with the PLY automaton cut, Parse(t1); Parse(t2) on one parser converts the offsets of t2 with the line table of t2 (every order of three of four texts with different line structure); bounded end-to-end part on one parser / one Compiler.",
+}
+for _k, _v in EXTRA_TEXT.items():
+    CLAIMED[_k]["text"] += _v
+
 NOT_YET = "not built yet in this round (design in DESIGN.md section 4); will be claimed when its obligations run"
 NA = {
     "C17": "pickle round trip across processes is the whole property; no contract within reach of the technique can decide it (DESIGN.md section 5)",
